@@ -3,6 +3,7 @@
 package main
 
 import (
+	"encoding/json"
 	"fmt"
 	"os"
 	"os/exec"
@@ -53,6 +54,20 @@ func main() {
 			fmt.Fprintln(os.Stderr, "CHECK-ERROR: vrewrite failed:", err)
 			os.Exit(2)
 		}
+		// extra files injected into packages of /repo (private-state accessors): _child/OVERLAY/<path under repo>
+		var o struct{ Replace map[string]string }
+		b, _ := os.ReadFile(ov)
+		if err := json.Unmarshal(b, &o); err != nil {
+			fmt.Fprintln(os.Stderr, "CHECK-ERROR: overlay:", err)
+			os.Exit(2)
+		}
+		for rel := range m.Files {
+			if strings.HasPrefix(rel, "OVERLAY/") {
+				o.Replace[filepath.Join(tgen.Repo(), strings.TrimPrefix(rel, "OVERLAY/"))] = filepath.Join(m.Dir, rel)
+			}
+		}
+		b, _ = json.MarshalIndent(o, "", " ")
+		os.WriteFile(ov, b, 0o644)
 		extra = append(extra, "-overlay", ov)
 	}
 	if os.Getenv("VERIF_CHILD_RACE") == "1" {
